@@ -15,7 +15,7 @@ import (
 )
 
 func e2eH1(full bool) {
-	vThreads()
+	vSchedulePolicy(vRange("schedulePolicy", 0, 2)) // thread mode, under each of the three scheduling policies
 	preserve, probes := vBool("flag.preserveHost"), vBool("flag.kubernetesProbe")
 	flagPreserveHost, flagEnableKubernetesProbe, flagVerboseLogs = e2eBoolp(preserve), e2eBoolp(probes), e2eBoolp(false)
 	idle := []string{"3m", "45s"}[vRange("flag.idleTimeout", 0, 1)]
